@@ -32,7 +32,14 @@ def main():
     common.ensure_driver() if not info["problems"] else None
     from harness import corpus
     corpus.run_corpus(ctx)
-    mod.run(ctx)
+    try:
+        mod.run(ctx)
+    except common.NonFinite as ex:
+        # NaN / inf came back from the implementation at a place where every admissible input gives a finite number:
+        # that is a failing input of the property, not a fault of the harness
+        import traceback
+        ctx.violation("oracle", {"issue": "the implementation returned a non-finite number (NaN / inf) where the property requires a finite value: " + str(ex),
+                                 "where": traceback.format_exc()[-1200:], "last_case": getattr(ctx, "last_detail", None)}, site="non-finite")
     if info["problems"] and not ctx.violations:
         ctx.violation("proof-obligation", {"problems": info["problems"], "log": info["build_log"][-1500:],
                                            "theorems": info["bad"]}, site="lean", no_input=True)
